@@ -542,6 +542,37 @@ func checkRingRotation(w *World, r *Report, rule string) {
 					if fa, isFA := st.Addr.(*ssa.FieldAddr); isFA && isFieldOf(fa, bufT, "head") {
 						nh := cx.parse(st.Val, 0)
 						cnt := cx.parse(outLen, 0)
+						// a running position read after the loop: init + k*I with I = the number of iterations, which is the
+						// number of results when the loop runs over the result slice (bound len(result) or the count itself)
+						if nh != nil && cnt != nil && nh.coef["I"] != 0 {
+							n := g.idx[in]
+							after := true // the store is not inside a loop: it cannot reach itself
+							if g.reach(g.succ[n], nil, nil)[n] {
+								after = false
+							}
+							full, _ := g.CondEdges(func(v ssa.Value) (bool, bool) {
+								b, okB := v.(*ssa.BinOp)
+								if !okB || b.Op != token.LSS {
+									return true, false
+								}
+								y := stripConv(b.Y)
+								if y == stripConv(outLen) {
+									return true, true
+								}
+								if args, isLen := isBuiltinCall(y, "len"); isLen {
+									if ms, isMS := stripConv(args[0]).(*ssa.MakeSlice); isMS && stripConv(ms.Len) == stripConv(outLen) {
+										return true, true
+									}
+								}
+								return true, false
+							})
+							if after && len(full) > 0 {
+								k := nh.coef["I"]
+								sub := nh.clone()
+								delete(sub.coef, "I")
+								nh = sub.add(cnt, k)
+							}
+						}
 						if nh != nil && cnt != nil && !congruent(nh, affSym("H").add(cnt, 1)) {
 							bad = append(bad, fmt.Sprintf("head becomes %s, not head + the number of elements handed out (%s)", nh, cnt))
 						}
